@@ -467,27 +467,42 @@ Proof.
     repeat split; try assumption; try congruence.
 Qed.
 
-Lemma op_api : forall s g, Inv false s g -> Shape false s -> wf_op s OApiCkpt = true ->
-  Inv_all false s g (events s OApiCkpt) /\ Shape false (step s OApiCkpt).
+Lemma Inv_all_step : forall pw s g e r,
+  Inv pw s g -> scK s e -> (pw = true -> scP s g e) ->
+  (Inv pw (apply_ev s e) (ghost_ev s g e) -> Inv_all pw (apply_ev s e) (ghost_ev s g e) r) ->
+  Inv_all pw s g (e :: r).
+Proof. intros. apply Inv_all_cons; [assumption |]. apply H2. apply Inv_step; assumption. Qed.
+
+Lemma op_api : forall s g ord, Inv false s g -> Shape false s -> wf_op s (OApiCkpt ord) = true ->
+  Inv_all false s g (events s (OApiCkpt ord)) /\ Shape false (step s (OApiCkpt ord)).
 Proof.
-  intros s g HI [Hb [Hcf [Hcd [Htx Hsy]]]] WF. cbn [wf_op] in WF. apply andb_true_iff in WF. destruct WF as [W1 W2].
+  intros s g ord HI [Hb [Hcf [Hcd [Htx Hsy]]]] WF. cbn [wf_op] in WF. apply andb_true_iff in WF. destruct WF as [W1 W2].
   assert (Hd : dirty s = []) by (destruct (dirty s); [reflexivity | discriminate]).
   unfold step. cbn [events]. rewrite Hd, Hb. cbn [key_tables map tables_of flat_map app]. rewrite app_nil_r.
   assert (E1 : Inv_all false s g [EAck]) by (apply Inv_all_one; [exact HI | exact I | discriminate]).
   assert (S1 : Shape false (run_evs s [EAck])) by (cbn; unfold Shape; repeat split; assumption).
   destruct (ever_dirty s); [| split; [exact E1 | exact S1]].
   destruct (cur_fl s) eqn:EC; cbn [app]; [split; [exact E1 | exact S1] |].
+  set (M := map EMsync ord).
+  assert (IM : Inv_all false s g M) by (apply msync_phase; [exact HI | exact Hb | exact Hd | discriminate]).
+  set (s1 := run_evs s M). set (g1 := ghost_evs s g M).
+  assert (I1 : Inv false s1 g1) by (apply Inv_all_end; exact IM).
   split.
-  - apply Inv_all_cons; [exact HI |]. apply Inv_all_one; [apply Inv_step; [exact HI | exact I | discriminate] | exact I | discriminate].
-  - cbn [run_evs fold_left apply_ev].
-    unfold Shape. sproj. repeat split; try reflexivity; try assumption. discriminate.
+  - rewrite <- app_assoc. apply Inv_all_app; [exact IM |]. cbn [app].
+    apply Inv_all_step; [exact I1 | exact I | discriminate | clear I1; intros I1].
+    apply Inv_all_step; [exact I1 | exact I | discriminate | clear I1; intros I1].
+    apply Inv_all_step; [exact I1 | exact I | discriminate | clear I1; intros I1].
+    apply Inv_all_one; [exact I1 | exact I | discriminate].
+  - rewrite <- app_assoc, run_evs_app. fold M s1. cbn [app run_evs fold_left apply_ev].
+    unfold Shape. sproj.
+    assert (TX : in_txn s1 = in_txn s).
+    { subst s1 M. apply run_pres. intros e He. apply in_map_iff in He. destruct He as [x [<- _]]. intros.
+      cbn [apply_ev]. destruct (mem x (files s0)); reflexivity. }
+    assert (DT : dirty s1 = dirty s).
+    { subst s1 M. apply run_pres. intros e He. apply in_map_iff in He. destruct He as [x [<- _]]. intros.
+      cbn [apply_ev]. destruct (mem x (files s0)); reflexivity. }
+    repeat split; try reflexivity; try discriminate. rewrite TX, DT. exact Htx.
 Qed.
-
-Lemma Inv_all_step : forall pw s g e r,
-  Inv pw s g -> scK s e -> (pw = true -> scP s g e) ->
-  (Inv pw (apply_ev s e) (ghost_ev s g e) -> Inv_all pw (apply_ev s e) (ghost_ev s g e) r) ->
-  Inv_all pw s g (e :: r).
-Proof. intros. apply Inv_all_cons; [assumption |]. apply H2. apply Inv_step; assumption. Qed.
 
 Lemma op_reopen : forall pw s g ord1 ord2, Inv pw s g -> Shape pw s -> wf_op s (OReopen ord1 ord2) = true ->
   Inv_all pw s g (events s (OReopen ord1 ord2)) /\ Shape pw (step s (OReopen ord1 ord2)).
@@ -564,14 +579,18 @@ Proof.
     apply Inv_all_step; [exact HI | exact I | intros; exact I | clear HI; intros HI].
     apply Inv_all_step; [exact HI | | intros; exact I | clear HI; intros HI].
     { cbn [apply_ev scK]. sproj. rewrite M1. unfold wfl. sproj. fold (wfl s). rewrite Hb. split; [right; apply NF; auto | reflexivity]. }
-    apply Inv_all_step; [exact HI | exact I | intros; exact I | clear HI; intros HI].
-    apply Inv_all_step; [exact HI | | intros; exact I | clear HI; intros HI].
-    { cbn [apply_ev scK]. sproj. rewrite M1. unfold wfl. sproj. fold (wfl s). rewrite Hb. split; [right; apply NF; auto | reflexivity]. }
     apply Inv_all_step; [exact HI | exact I | | clear HI; intros HI].
-    { intros P. cbn [apply_ev scP]. sproj. rewrite M1. unfold pendf. sproj. fold (pendf s). rewrite (PF P). repeat split; [exact Hb |]. intros k Hk. apply (ND k (idx_file t)); auto. }
+    { intros P. cbn [apply_ev scP]. sproj. rewrite M1. unfold pendf. sproj. fold (pendf s). rewrite (PF P). repeat split; [exact Hb |]. intros k Hk. apply (ND k t); auto. }
     apply Inv_all_step; [exact HI | exact I | intros; exact I | clear HI; intros HI].
     apply Inv_all_step; [exact HI | | intros; exact I | clear HI; intros HI].
-    { cbn [apply_ev scK]. sproj. rewrite M1. sproj. rewrite M2. unfold wfl. sproj. fold (wfl s). rewrite Hb. split; [right; apply NF; auto | reflexivity]. }
+    { cbn [apply_ev scK]. sproj. rewrite M1. sproj. rewrite M1. unfold wfl. sproj. fold (wfl s). rewrite Hb. split; [right; apply NF; auto | reflexivity]. }
+    apply Inv_all_step; [exact HI | exact I | | clear HI; intros HI].
+    { intros P. cbn [apply_ev scP]. sproj. rewrite M1. sproj. rewrite M1. unfold pendf. sproj. fold (pendf s). rewrite (PF P). repeat split; [exact Hb |]. intros k Hk. apply (ND k (idx_file t)); auto. }
+    apply Inv_all_step; [exact HI | exact I | intros; exact I | clear HI; intros HI].
+    apply Inv_all_step; [exact HI | | intros; exact I | clear HI; intros HI].
+    { cbn [apply_ev scK]. sproj. rewrite M1. sproj. rewrite M1. sproj. rewrite M2. unfold wfl. sproj. fold (wfl s). rewrite Hb. split; [right; apply NF; auto | reflexivity]. }
+    apply Inv_all_step; [exact HI | exact I | | clear HI; intros HI].
+    { intros P. cbn [apply_ev scP]. sproj. rewrite M1. sproj. rewrite M1. sproj. rewrite M2. unfold pendf. sproj. fold (pendf s). rewrite (PF P). repeat split; [exact Hb |]. intros k Hk. apply (ND k (idx_file t)); auto. }
     repeat (apply Inv_all_step; [exact HI | exact I | intros; exact I | clear HI; intros HI]).
     apply Inv_all_nil. exact HI.
   - unfold step, Shape.
